@@ -188,8 +188,22 @@ def default_models():
     reg('numpy.full_like', lambda I, a, v, **kw: SArr(I.len_(a), lambda k: v))
     reg('numpy.empty_like', lambda I, a, **kw: SArr(I.len_(a), lambda k: Fraction(0)))
     reg('numpy.sum', lambda I, a, **kw: array_sum(I, a) if isinstance(a, SArr) else I.builtins['sum'].fn(a))
-    reg('numpy.all', lambda I, a: array_all(I, a) if isinstance(a, SArr) else I.builtins['all'].fn(a))
-    reg('numpy.any', lambda I, a: array_any(I, a) if isinstance(a, SArr) else I.builtins['any'].fn(a))
+    def _np_all(I, a):
+        if isinstance(a, SArr):
+            return array_all(I, a)
+        if isinstance(a, (list, tuple)):
+            return I.builtins['all'].fn(a)
+        return I.symbolic_truth(a)          # 0-d: the truth value of the scalar
+
+    def _np_any(I, a):
+        if isinstance(a, SArr):
+            return array_any(I, a)
+        if isinstance(a, (list, tuple)):
+            return I.builtins['any'].fn(a)
+        return I.symbolic_truth(a)
+    reg('numpy.all', _np_all)
+    reg('numpy.any', _np_any)
+    reg('numpy.size', lambda I, a: I.len_(a) if isinstance(a, (SArr, list, tuple)) else 1)
     reg('numpy.shape', lambda I, a: (I.len_(a),) if isinstance(a, (SArr, list)) else ())
     reg('numpy.ndim', lambda I, a: 1 if isinstance(a, (SArr, list)) else 0)
 
